@@ -889,36 +889,41 @@ impl Collection {
     ///
     /// It will never return (false, true).
     pub fn clear_page(&self, host: &str, uri: &Uri) -> (bool, bool) {
-        let key = UriKey::path_and_query(uri);
+        /// Removes the items of `uri` (with and without its query).
+        fn clear(cache: &comprash::ResponseCache, uri: &Uri) -> bool {
+            let key = UriKey::path_and_query(uri);
+            let mut cleared = cache.cache.contains_key(&key);
+            cache.cache.invalidate(&key);
+            if let UriKey::PathQuery(path_query) = key {
+                let key = UriKey::Path(path_query.into_path());
+                cleared |= cache.cache.contains_key(&key);
+                cache.cache.invalidate(&key);
+            }
+            cleared
+        }
+        /// `<path>/` and `<path>.` are cached under the URI the default redirect extension
+        /// rewrites them to (`/` and `/index.html` are the same item): clear that too.
+        fn clear_page_and_redirect(host: &Host, cache: &comprash::ResponseCache, uri: &Uri) -> bool {
+            let mut cleared = clear(cache, uri);
+            if let Some(uri) = extensions::uri_redirect_target(uri, &host.options) {
+                cleared |= clear(cache, &uri);
+            }
+            cleared
+        }
 
         let mut found = false;
         let mut cleared = false;
         if host.is_empty() || host == "default" {
-            if let Some(cache) = self
-                .get_default()
-                .as_ref()
-                .and_then(|h| h.response_cache.as_ref())
-            {
-                found = true;
-
-                cleared ^= cache.cache.contains_key(&key);
-                cache.cache.invalidate(&key);
-                if let UriKey::PathQuery(path_query) = key {
-                    let key = UriKey::Path(path_query.into_path());
-                    cleared |= cache.cache.contains_key(&key);
-                    cache.cache.invalidate(&key);
+            if let Some(host) = self.get_default() {
+                if let Some(cache) = &host.response_cache {
+                    found = true;
+                    cleared = clear_page_and_redirect(host, cache, uri);
                 }
             }
         } else if let Some(host) = self.get_host(host) {
             found = true;
             if let Some(cache) = &host.response_cache {
-                cleared ^= cache.cache.contains_key(&key);
-                cache.cache.invalidate(&key);
-                if let UriKey::PathQuery(path_query) = key {
-                    let key = UriKey::Path(path_query.into_path());
-                    cleared |= cache.cache.contains_key(&key);
-                    cache.cache.invalidate(&key);
-                }
+                cleared = clear_page_and_redirect(host, cache, uri);
             }
         }
         (found, cleared)
